@@ -142,6 +142,8 @@ class Rec:
     def __init__(self, cls: ClassInfo):
         self.cls = cls
         self.fields: Dict[str, Any] = {}
+        self.retained = False
+        self.touched: set = set()
 
     def __repr__(self):
         return f"Rec<{self.cls.name}>"
@@ -877,6 +879,9 @@ class Interp:
         raise Unsupported(f"truthiness of {v!r} at {self.site}")
 
     def atom(self, key: str) -> bool:
+        if "stale:" in key:
+            raise HistoryDependence(self.site, f"a decision depends on {key[key.index('stale:'):].split('>')[0]}, a field that "
+                                               f"earlier calls assign")
         if key in self.atoms:
             return self.atoms[key]
         i = self.choose(2, key, ["true", "false"])
@@ -1162,6 +1167,7 @@ class Interp:
             return r
         else:
             obj = Rec(cinfo)
+            obj.retained = self.retained_mode > 0
         init = prog.find_method(cinfo.name, "__init__")
         if init is not None:
             self.call_function(init, [obj] + list(args), dict(kwargs))
@@ -1341,11 +1347,18 @@ class Interp:
                 return v.g
             if isinstance(v, (Lst, Tup)) and v.items and all(isinstance(x, (int, float)) for x in v.items):
                 return min(v.items) if path.endswith("min") else max(v.items)
-        if path == "math.isnan":
+        if path in ("math.isnan", "math.isfinite", "math.isinf", "numpy.isnan", "numpy.isfinite", "numpy.isinf"):
+            import math as _m
             v = args[0]
+            fn = path.split(".")[1]
             if isinstance(v, (int, float)):
-                return v != v
-            return self.atom(f"isnan:{v!r}")
+                return getattr(_m, fn)(v)
+            t = self.to_term(v)
+            if t is not None and ("atom", "nan") not in A.symbols(t) and not any(
+                    s[0] == "atom" and str(s[1]).startswith("nonfinite") for s in A.symbols(t)):
+                # number symbols stand for finite constants (non-finite constants are outside the analysed domain)
+                return fn == "isfinite"
+            return self.atom(f"{fn}:{v!r}")
         if path in ("typing.cast",):
             return args[1]
         if path == "numpy.format_float_positional":
@@ -1397,6 +1410,13 @@ class Interp:
             raise AbsRaise("AttributeError", self.site, f"{cell!r} has no attribute {attr}")
         if isinstance(obj, Rec):
             if attr in obj.fields:
+                if obj.retained and self.retained_mode == 0 and attr not in obj.touched \
+                        and self.config.get("model_history", True) and attr in self._call_written_fields(obj.cls):
+                    obj.touched.add(attr)
+                    # a scalar field that calls (not only __init__) assign: it may still hold what an earlier call left
+                    if not isinstance(obj.fields[attr], (Dct, Lst)) and self.choose(
+                            2, f"{obj.cls.name}.{attr}", ["as-initialised", "left-by-an-earlier-call"]) == 1:
+                        obj.fields[attr] = Opaque(f"stale:{obj.cls.name}.{attr}")
                 return obj.fields[attr]
             if attr == "__class__":
                 return Cls(obj.cls)
@@ -1484,6 +1504,24 @@ class Interp:
             return Opaque(f"{obj.tag}.{attr}")
         return self._bad_attr(obj, attr)
 
+    def _call_written_fields(self, cinfo: ClassInfo) -> set:
+        cache = self.prog.__dict__.setdefault("_cwf", {})
+        if cinfo.name not in cache:
+            out = set()
+            for c in self.prog.mro(cinfo):
+                for name, m in c.methods.items():
+                    if name == "__init__":
+                        continue
+                    for n in ast.walk(m.node):
+                        tg = n.targets if isinstance(n, ast.Assign) else (
+                            [n.target] if isinstance(n, (ast.AugAssign, ast.AnnAssign)) else [])
+                        for t in tg:
+                            for tt in (t.elts if isinstance(t, (ast.Tuple, ast.List)) else [t]):
+                                if isinstance(tt, ast.Attribute) and isinstance(tt.value, ast.Name) and tt.value.id == "self":
+                                    out.add(tt.attr)
+            cache[cinfo.name] = out
+        return cache[cinfo.name]
+
     def _bad_attr(self, obj, attr):
         raise Unsupported(f"attribute {attr} of {obj!r} at {self.site}")
 
@@ -1562,6 +1600,8 @@ class Interp:
             return
         if isinstance(obj, Rec):
             old = obj.fields.get(attr, _MISSING)
+            if self.retained_mode == 0:
+                obj.touched.add(attr)
             obj.fields[attr] = v
             self.events.append(("recstore", obj.cls.name, attr, old, v, self.site, id(obj)))
             return
